@@ -257,6 +257,13 @@ def rule_reader_state(ctx):
     C11.rule_R1(R.Retag(ctx, "C11."), only=("TlsClientHelloReader",))
 
 
+def rule_extractor_reset(ctx):
+    """the documented way to reuse an HTTP/2 fingerprint extractor for a new connection restores every field its other methods modify
+    (shared rule _reset, also C17.R3)"""
+    from . import _reset as RS
+    RS.reset_complete(ctx, ctx.program, "R2", "Http2FingerprintExtractor")
+
+
 def rule_twins(ctx):
     """the IPv4 and IPv6 copies of the per-packet functions route sides, roles and lookups identically (shared rule TW)"""
     from . import _twins as TW
@@ -272,6 +279,7 @@ def rule_worker_survives(ctx):
 
 
 def run(ctx):
+    rule_extractor_reset(ctx)
     rule_worker_survives(ctx)
     rule_twins(ctx)
     rule_reader_state(ctx)
